@@ -7,23 +7,6 @@ import XPathV.Lemmas.Facts
 namespace XPathV.Theorems.C07
 open XPathV XPathV.Model XPathV.Facts NumAlg
 
-/-- T0 (F1): the comparison dispatch matrix has no nil cell and holds the expected cells -/
-theorem cmp_table_ok : Generated.cmpTable =
-    [[some "cmpBooleanBoolean", some "cmpBooleanAny", some "cmpBooleanAny", some "cmpBooleanAny"],
-     [some "cmpAnyBoolean", some "cmpNumericNumeric", some "cmpNumericString", some "cmpNumericNodeSet"],
-     [some "cmpAnyBoolean", some "cmpStringNumeric", some "cmpStringString", some "cmpStringNodeSet"],
-     [some "cmpAnyBoolean", some "cmpNodeSetNumeric", some "cmpNodeSetString", some "cmpNodeSetNodeSet"]] := by decide
-
-/-- T0 (F2): the leaf comparators map each XPath operator to the Go operator of the same meaning,
-with the operands in order -/
-theorem leaf_comparators_ok :
-    Generated.cmpNumOps = [("=", "=="), (">", ">"), ("<", "<"), (">=", ">="), ("<=", "<="), ("!=", "!=")] ∧
-    Generated.cmpStrOps = [("=", "=="), (">", ">"), ("<", "<"), (">=", ">="), ("<=", "<="), ("!=", "!=")] ∧
-    Generated.opFuncs = [("eqFunc", "="), ("gtFunc", ">"), ("geFunc", ">="), ("ltFunc", "<"), ("leFunc", "<="), ("neFunc", "!=")] := by decide
-
-/-- T0 (F2): no comparison cell panics (the pinned number/string and number/node-set cells did) -/
-theorem cells_do_not_panic : Generated.cellPanics.all (fun p => !p.2) = true := by decide
-
 variable {F : Type} [NumAlg F]
 
 /-- number vs number -/
@@ -64,8 +47,5 @@ theorem asBool_spec (v : Spec.Value F) :
     asBoolM (F := F) (match v with | .nodes l => .nodes l | .bool b => .bool b | .num x => .num x | .str s => .str s)
       = .ok (Spec.toBool v) := by
   cases v <;> simp [asBoolM, Spec.toBool]
-
-/-- T0: the float arm of `asBool` is "non-zero and not NaN" -/
-theorem asBool_float_arm_ok : Generated.asBoolFloatSrc = "returnv!=0&&!math.IsNaN(v)" := rfl
 
 end XPathV.Theorems.C07
